@@ -633,3 +633,9 @@ pub fn digest(words: impl IntoIterator<Item = u64>) -> u64 {
     }
     h
 }
+
+/// Set when a leak detector watches the run: the generators then never `mem::forget` iterators.
+pub static NOFORGET: std::sync::atomic::AtomicBool = std::sync::atomic::AtomicBool::new(false);
+pub fn noforget() -> bool {
+    NOFORGET.load(std::sync::atomic::Ordering::Relaxed)
+}
